@@ -162,3 +162,5 @@ pub fn __vec_concat2(a: Vec<u8>, b: Vec<u8>) -> (r: Vec<u8>) ensures r@ == a@ + 
 // R19: `a == b` on byte slices compares contents
 #[verifier::external_body]
 pub fn __bytes_eq(a: &[u8], b: &[u8]) -> (r: bool) ensures r == (a@ == b@) { a == b }
+
+pub open spec fn strs_view(v: Seq<&str>) -> Seq<Seq<char>> { Seq::new(v.len(), |i: int| v[i]@) }
